@@ -437,6 +437,92 @@ fn concurrent_inflator_lookups(run: &Run, thorough: bool) {
     }
 }
 
+/// Mints with two inputs of different ages: the puzzle, the age rule of Mainnet and the speed belong to the *first* input alone.
+/// Block 1 splits the genesis coin (A, B, C); `gap` blocks later C is moved into a young coin Y; two blocks after that the
+/// mints [Y, A], [A, Y] (each with the proof made for its first input, and with the proof made for the other one) are tried.
+fn two_input_mints(run: &Run, net: NetID, gap: u64, difficulties: &[(u32, bool)]) {
+    let eng = Engine::new(run);
+    let (_w, rootn) = root(net, 0, net != NetID::Mainnet);
+    let open = match eng.step(&rootn, &Action::Open) {
+        StepOut::Next(x) => x,
+        _ => return,
+    };
+    let split = tx_t(TxKind::Normal, vec![CoinID::zero_zero()], vec![out_t(400_000_000, Denom::Mel), out_t(300_000_000, Denom::Mel), out_t(300_000_000, Denom::Mel)], 0, vec![]);
+    let n = match eng.step(&open, &Action::Batch { label: "split-genesis".into(), txs: vec![split.clone()], expect_ok: true }) {
+        StepOut::Next(x) => x,
+        _ => return,
+    };
+    let sealed1 = match eng.step(&n, &Action::Seal(None)) {
+        StepOut::Next(x) => x,
+        _ => return,
+    };
+    let h_old = sealed1.model.height;
+    let later = match advance(&eng, sealed1, gap) {
+        Some(x) => x,
+        None => return,
+    };
+    let open = match eng.step(&later, &Action::Open) {
+        StepOut::Next(x) => x,
+        _ => return,
+    };
+    let mv = tx_t(TxKind::Normal, vec![split.output_coinid(2)], vec![out_t(300_000_000, Denom::Mel)], 0, vec![0x59]);
+    let n = match eng.step(&open, &Action::Batch { label: "move coin C into the young coin Y".into(), txs: vec![mv.clone()], expect_ok: true }) {
+        StepOut::Next(x) => x,
+        _ => return,
+    };
+    let sealed_y = match eng.step(&n, &Action::Seal(None)) {
+        StepOut::Next(x) => x,
+        _ => return,
+    };
+    let h_young = sealed_y.model.height;
+    let s = match advance(&eng, sealed_y, 1) {
+        Some(x) => x,
+        None => return,
+    };
+    let open = match eng.step(&s, &Action::Open) {
+        StepOut::Next(x) => x,
+        _ => return,
+    };
+    let height = open.model.height;
+    let v = open.view();
+    let prev_speed = v.history(BlockHeight(height - 1)).map(|h| h.dosc_speed).unwrap_or(1_000_000);
+    let old = (split.output_coinid(0), 400_000_000u128, h_old);
+    let young = (mv.output_coinid(0), 300_000_000u128, h_young);
+    let mut cases: Vec<(String, Transaction, bool)> = vec![];
+    for (d, tip910) in difficulties {
+        for (first, second, fname) in [(young, old, "young"), (old, young, "old")] {
+            let age = height - first.2;
+            let speed = (if *tip910 { 100u128 } else { 1 }) * (1u128 << d) / age as u128;
+            let max_erg = ref_dosc_to_erg(height, ref_reward(speed, prev_speed, *d, *tip910)).unwrap_or(u128::MAX).min(1 << 120);
+            let age_ok = net != NetID::Mainnet || age >= 100;
+            let mk = |proof_for: &(CoinID, u128, u64), erg: u128| {
+                let hdr = v.history(BlockHeight(proof_for.2)).expect("header at the coin's height");
+                let pz = puzzle(&hdr, &proof_for.0);
+                let proof = if *tip910 { melpow::Proof::generate(&pz, *d as usize, Tip910Hash) } else { melpow::Proof::generate(&pz, *d as usize, LegacyHash) };
+                let mut outs = vec![out_t(first.1 + second.1, Denom::Mel)];
+                if erg > 0 {
+                    outs.push(out_t(erg, Denom::Erg));
+                }
+                tx_t(TxKind::DoscMint, vec![first.0, second.0], outs, 0, stdcode::serialize(&(*d, proof.to_bytes())).unwrap())
+            };
+            let base = format!("two inputs, {} coin (age {}) first, d={} {}", fname, age, d, if *tip910 { "tip910" } else { "legacy" });
+            for erg in [0u128, max_erg, max_erg + 1] {
+                cases.push((format!("{} proof for the first input erg={}(max {})", base, erg, max_erg), mk(&first, erg), age_ok && erg <= max_erg));
+            }
+            cases.push((format!("{} proof for the second input", base), mk(&second, 0), false));
+        }
+    }
+    run.states_add(cases.len() as u64);
+    cases.par_iter().for_each(|(label, tx, valid)| {
+        let a = Action::Batch { label: label.clone(), txs: vec![tx.clone()], expect_ok: *valid };
+        match eng.step(&open, &a) {
+            StepOut::Next(_) => run.outcome(if *valid { "two-input-mint:valid-accepted" } else { "two-input-mint:accepted(engine compares with the model)" }),
+            StepOut::Rejected => run.outcome(if *valid { "two-input-mint:valid-rejected(statement is only-if: recorded)" } else { "two-input-mint:invalid-rejected" }),
+            StepOut::Pruned => run.outcome("two-input-mint:engine-reported"),
+        }
+    });
+}
+
 pub fn run(run: &Run) {
     let thorough = run.thorough();
     // first of all, on a network nothing else in this process touches: whatever a process remembers about one chain must not
@@ -463,6 +549,9 @@ pub fn run(run: &Run) {
     if thorough {
         run_world(run, NetID::Testnet, &[1, 2, 100], &[(2, false), (16, false), (3, true)], thorough);
     }
+    // two inputs of different ages (Mainnet: the first input alone must be 100 blocks old)
+    two_input_mints(run, NetID::Mainnet, 97, &[(3, true), (8, false)]);
+    two_input_mints(run, NetID::Custom02, 3, &[(3, true), (8, false)]);
     formula_grid(run);
     concurrent_inflator_lookups(run, thorough);
     run.set("ages", json!({"custom02": ages, "mainnet": m_ages}));
